@@ -91,8 +91,9 @@ class BrentsRootFinder:
             self.current_guess = abscissa
             return
 
-        # Update interval
-        if self.fa * ordinate < 0:
+        # Update interval (compare the signs: the product of two tiny
+        # ordinates underflows to zero)
+        if (self.fa < 0 < ordinate) or (ordinate < 0 < self.fa):
             self.b, self.fb = abscissa, ordinate
         else:
             self.a, self.fa = abscissa, ordinate
